@@ -87,8 +87,8 @@ impl Prop for C04P {
     }
     fn plan(&self, tier: Tier, _seed: u64) -> Plan {
         let mut p = Plan::new(
-            vec![sec("pinned", 200), sec("explicit-programs", tier.pick(45_000, 300_000)), sec("inferred-programs", tier.pick(30_000, 200_000)), sec("perturbed-programs", tier.pick(40_000, 400_000))],
-            "accepted generated programs (explicit and inferred; result types int, bool, type, function and polymorphic function types, types computed by type-level functions/conditionals/definitions) the corpus, and single-point perturbations of generated programs (whatever the checker still accepts) are run; when a value is produced its head is compared with the head of the reported type and the value term is type checked by the reference checker against the reported type; non-trivial = distinct program that produced a value",
+            vec![sec("pinned", 200), sec("explicit-programs", tier.pick(45_000, 300_000)), sec("inferred-programs", tier.pick(30_000, 200_000)), sec("perturbed-programs", tier.pick(40_000, 400_000)), sec("near-miss-coercions", tier.pick(40_000, 400_000))],
+            "accepted generated programs (explicit and inferred; result types int, bool, type, function and polymorphic function types, types computed by type-level functions/conditionals/definitions) the corpus, single-point perturbations and scope-aware edits of generated programs, and near-miss coercions whose result is the coerced value itself (whatever the checker still accepts) are run; when a value is produced its head is compared with the head of the reported type and the value term is type checked by the reference checker against the reported type; non-trivial = distinct program that produced a value",
         );
         p.assumptions = vec!["R-core is the typing reference (DESIGN.md A.5/A.6); reference fuel exhaustion is inconclusive".into()];
         p.floor_evaluations = 10_000;
@@ -108,6 +108,12 @@ impl Prop for C04P {
                     let holes = crate::props::c07::parse_to_h(p).map_or(true, |h| has_source_holes(&h));
                     check_program(ctx, p, holes);
                 }
+            }
+            "near-miss-coercions" => {
+                let mut r = Rng::for_case(ctx.seed, 6, idx);
+                let c = crate::coerce::gen_coercion(&mut r, false);
+                let src = print(&c.h, &Style::varied(&mut r), idx).text;
+                check_program(ctx, &src, false);
             }
             "perturbed-programs" => {
                 // the property quantifies over accepted programs: a checker that lets an ill-typed
@@ -137,6 +143,11 @@ impl Prop for C04P {
     fn describe(&self, _tier: Tier, seed: u64, section: &str, idx: u64) -> String {
         if section == "pinned" {
             return String::new();
+        }
+        if section == "near-miss-coercions" {
+            let mut r = Rng::for_case(seed, 6, idx);
+            let c = crate::coerce::gen_coercion(&mut r, false);
+            return print(&c.h, &Style::varied(&mut r), idx).text;
         }
         if section == "perturbed-programs" {
             let mut r = Rng::for_case(seed, 3, idx);
